@@ -9,23 +9,23 @@ CLAIMED = {
         note="trusts the 60-line independent evaluator and the byte model; no I/O fault seam exists in this code, the adversary is the history and the placement of maintenance operations"),
     "C09": dict(engine="aliassim", level="exploration", ref="3.2",
         technique="deterministic simulation: store/load programs through symbolic pointers, late (adversarial) pointer resolution, mods-replay interpreter vs. bytearray execution",
-        text="Seeded load/store programs over several pointer registers are executed symbolically, then the environment reveals pointer values (equal, partially overlapping, adjacent, disjoint) and every loaded value (with its mods replayed by an independent interpreter) and the final memory are compared with a sequential bytearray execution. Known genuine defects are carved out by scenario predicates and replayed as witnesses.",
+        text="Seeded load/store programs over several pointer registers are executed symbolically, then the environment reveals pointer values (equal, partially overlapping, adjacent, disjoint) and every loaded value (call-form and index-form loads, fresh or pre-assigned result registers; with its mods replayed by an independent interpreter) and the final memory are compared with a sequential bytearray execution. Known genuine defects are carved out by scenario predicates and replayed as witnesses.",
         note="trusts the bytearray model and the independent mods interpreter; carve-outs over-approximate the known defects' trigger regions and cost coverage there"),
     "C10": dict(engine="heapsim_isa", level="exploration", ref="3.3",
         technique="deterministic simulation: seeded interleaving of analysis clients on one process image (one long history per forked world), first-occurrence (temporal) oracle on every observation + sampled pristine forked reference worlds, guided polluter x victim layer confirmed in pristine forks, heap write barrier for attribution and undo of listed sites",
-        text="Analysis clients (decode / build map / evaluate / re-evaluate / rebuild / compose / pickle / aborted builds) of several ISAs are interleaved on one process image by a seeded scheduler; every constant observation must equal the first observation of the same (ISA, block, state) in that process - on the old map and on a map rebuilt after the intervening history - and sampled first observations must equal a pristine forked process that executes only the dependency chain. A guided layer screens every spec for writes to pre-existing nodes and runs polluter x victim histories, each divergence confirmed in a pristine fork.",
+        text="Analysis clients (decode / build map / evaluate / re-evaluate / rebuild / compose / continue the analysis on a copy derived from a stored map / pickle / aborted builds) of several ISAs are interleaved on one process image by a seeded scheduler; every constant observation must equal the first observation of the same (ISA, block, state) in that process - on the old map and on a map rebuilt after the intervening history - and sampled first observations must equal a pristine forked process that executes only the dependency chain. A guided layer screens every spec for writes to pre-existing nodes and runs polluter x victim histories, each divergence confirmed in a pristine fork.",
         note="compares constants only (loads stay symbolic); trusts fork() to give the post-import state; 16 listed write sites (signedness flag / armv7 decode mode on process-global objects) are undone at step end - a carve-out that masks changes at those sites only - and each is replayed without undo as a KNOWN-FINDING witness"),
     "C11": dict(engine="decsim", level="exploration", ref="3.4",
-        technique="deterministic simulation with fault injection: seeded decode-call histories with truncated fetch windows, rejections and injected setup-function faults vs. a memoryless reference decoder and pristine forked processes; exhaustive 2-call histories over a per-ISA pool",
-        text="Histories of decode calls (valid, prefixed, truncated at every length, undecodable, natural and injected setup failures incl. MemoryError, ARM/Thumb switches) on the shared disassembler object of every importable ISA; each call's outcome must equal that of a never-called copy of the decoder, sampled calls must equal a pristine forked process, returned bytes must be a prefix of the call's input. The pair layer enumerates all ordered pairs of a per-ISA pool as 2-call histories.",
+        technique="deterministic simulation with fault injection: seeded decode-call histories with truncated fetch windows, rejections and injected setup-function faults vs. a memoryless reference decoder, the first occurrence of the same call in the process, and pristine forked processes (single calls, and the world's distinct calls replayed in another order); decoder-tree-guided inputs; exhaustive 2-call histories over a per-ISA pool",
+        text="Histories of decode calls (valid, prefixed, truncated at every length, undecodable, natural and injected setup failures incl. MemoryError, ARM/Thumb switches) on the shared disassembler object of every importable ISA; each call's outcome must equal that of a never-called copy of the decoder and that of the first occurrence of the same call in this process (inputs of long ago are re-issued), sampled calls must equal a pristine forked process, up to 6000 distinct calls per world are replayed by one pristine process in hash order and must give the same outcomes, returned bytes must be a prefix of the call's input. Inputs include words accepted by two specs of one leaf of the decoder tree. The pair layer enumerates all ordered pairs of a per-ISA pool as 2-call histories.",
         note="reference decoder is a shallow copy of the shared decoder taken before its first call; fault trampolines wrap ispec.hook; sampling except for the stated pair pool"),
     "C13": dict(engine="heapsim_alg", level="exploration", ref="3.5",
         technique="deterministic simulation: shared-operand operation histories by several holders with injected aborts, published-value stability oracle, heap write barrier, pickle round trips",
-        text="A pool of published expressions shared by several holders (pool, mapper, memory map, composites) is subjected to seeded histories of operator / simplify / eval / map / memory / merge operations and injected aborts; after every step every published expression must keep its width, tile correctly and denote the same values under fixed valuations; pickled copies must print, compare and evaluate identically.",
+        text="A pool of published expressions shared by several holders (pool, mapper, memory map, composites) is subjected to seeded histories of operator / simplify / eval / map (incl. maps derived by use/eval/assume, conditions) / memory / merge / compose operations and injected aborts; after every step every published expression must keep its width, tile correctly and denote the same values under fixed valuations, and every held map must keep its entries, memory and conditions; pickled copies must print, compare and evaluate identically.",
         note="denotation is measured with an independent walker plus amoco's own eval on constants; listed known write sites are undone at step end (carve-out), witnesses replay without undo"),
     "C18": dict(engine="cfgsim", level="exploration", ref="3.6",
         technique="deterministic simulation: seeded arrival orders and subsets of blocks into cfg.graph, partition/exactly-once/split-edge invariants after every insertion; stream invariants of linear sweep and block slicing",
-        text="For code regions of every ISA with a usable loader, linear sweep / block construction invariants are checked and then seeded subsets of blocks are inserted into cfg.graph in seeded arrival orders (with edges and re-insertions); after every insertion the support must be pairwise disjoint, contain every inserted instruction exactly once and carry a fall-through edge wherever a node was split.",
+        text="For code regions of every ISA with a usable loader, linear sweep / block construction invariants are checked and then seeded subsets of blocks are inserted into cfg.graph - a separate graph or the sweep object's own - in seeded arrival orders (with edges, re-insertions and re-sweeps); after every insertion the support must be pairwise disjoint, contain every inserted instruction exactly once and carry a fall-through edge wherever a node was split.",
         note="reference block boundaries come from a 15-line independent computation over the swept instruction list; arrival order is the only adversary (no I/O seam)"),
     "C20": dict(engine="filesim", level="fault_enumeration", ref="3.7",
         technique="deterministic simulation with storage fault injection: SimFS seam under read_program, enumerated truncations and header-field boundary overwrites plus seeded corruption sequences (incl. grouped fields, checksum-valid HEX/SREC records), deterministic interpreter-event budget (sys.monitoring) and allocation bounds (tracemalloc peak, refused-allocation monitor)",
@@ -87,7 +87,7 @@ def main():
                      "kind_free_text": "deterministic simulation engine (seeded scheduler, explicit traces, forked worlds)"} for e, ps in sorted(engines.items())],
         "checks": checks,
         "not_applicable": sorted(na, key=lambda x: x["property_id"]),
-        "notes": "fix: commits in /repo are listed in known_findings.txt (fixed: lines, each with a witness under replays/fixed/ that fails on the parent commit). Open findings: C09 T1-T3, C10 write sites, C20 PE padding (witnesses under replays/known/). Exit codes: 0 held, 1 VIOLATION, 3 harness error. ./check selftest determinism|mutants prove the simulator; seeded/ holds 14 independently written breaking changes, all caught.",
+        "notes": "fix: commits in /repo are listed in known_findings.txt (fixed: lines, each with a witness under replays/fixed/ that fails on the parent commit). Open findings: C09 T1-T3, C10 write sites, C20 PE padding (witnesses under replays/known/). Exit codes: 0 held, 1 VIOLATION, 3 harness error. ./check selftest determinism|mutants prove the simulator; seeded/ holds the independently written breaking changes (sub-agents), all caught after the strengthening recorded in each meta.json; ./check selftest seeds re-runs them.",
     }
     with open(os.path.join(here, "MANIFEST.json"), "w") as f:
         json.dump(m, f, indent=1)
